@@ -1,6 +1,7 @@
 package check
 
 import (
+	"os"
 	"verifsim/core"
 	"verifsim/gen"
 	"verifsim/prog"
@@ -38,6 +39,9 @@ func crashKVParams(r *core.Rng, tier string, modes []int) gen.KVParams {
 
 var tierOf = map[uint64]string{}
 
+// onlyConc restricts C10 / C16 to their scheduled sub-batch (experiments only).
+var onlyConc = os.Getenv("NUTSIM_ONLY_CONC") != ""
+
 func init() {
 	// ---- C10: process crash
 	mixCrash := func(r *core.Rng, tier string) *prog.Program {
@@ -50,6 +54,11 @@ func init() {
 		return gen.Mix(r, p)
 	}
 	c10gen := func(r *core.Rng, tier string) *prog.Program {
+		if r.Bool(0.15) || onlyConc {
+			// the process dies while several goroutines are inside transactions
+			cp := gen.ConcParams{Modes: []int{0, 1}, Segs: []int64{128, 192, 256, 512}, MinTasks: 2, MaxTasks: 5, MaxDBs: 1, MaxSteps: 4, DS: []string{"kv", "list", "set", "zset"}}
+			return gen.Conc(r, cp)
+		}
 		if r.Bool(0.4) {
 			return mixCrash(r, tier)
 		}
@@ -58,18 +67,24 @@ func init() {
 	}
 	c10 := func(tier string) func(uint64, *prog.Program) *RunResult {
 		return func(seed uint64, p *prog.Program) *RunResult {
+			if p.Tasks > 0 {
+				return concCrashExec(seed, p, snapPolicy(tier, true, true, false), false, 0.3)
+			}
 			res := crashExec(seed, p, snapPolicy(tier, true, true, false), judgeMode{Recovery: true, ContinueP: 0.3}, run.Options{Deferred: true})
 			res.Nontrivial = res.Images >= 3 && res.Faults["torn"] > 0
 			return res
 		}
 	}
 	deep10 := func(seed uint64, p *prog.Program) *RunResult {
+		if p.Tasks > 0 {
+			return concCrashExec(seed, p, deepPolicy(true, true, false), false, 0.3)
+		}
 		return crashExec(seed, p, deepPolicy(true, true, false), judgeMode{Recovery: true, ContinueP: 0.3}, run.Options{Deferred: true})
 	}
 	Register(&Spec{
 		ID: "C10", Level: "fault_enumeration",
 		Rule: "seeded histories (KV in both RAM index modes; lists, sets and sorted sets in key+value mode; multi-op transactions, failed commits with an oversized entry at a non-first position, rollbacks, frozen clock so that transactions share a millisecond, dirty restarts) x crash images taken at a seeded sample (thorough: all) of the file-mutation points, plus torn prefixes of every sampled write at record-field boundaries; each image is mounted in a fresh world, opened and fully observed; " +
-			"required: Open succeeds and the observation equals the model state after the acknowledged transactions, or that plus the in-flight transaction if its commit went on to succeed; non-trivial = at least 3 distinct images of which at least one torn",
+			"required: Open succeeds and the observation equals the model state after the acknowledged transactions, or that plus the in-flight transaction if its commit went on to succeed; one run in seven is a scheduled program (2-5 tasks of View/Update transactions under the seeded scheduler): an image taken at event e must show the state after k write transactions in lock-grant order, with k between the number acknowledged at e and the number granted the lock at e; non-trivial = at least 3 distinct images of which at least one torn",
 		Gen: c10gen, Exec: c10("quick"), Deep: deep10,
 		Classes: classes("recovery", "open-failed", "open-panic"),
 		Assume:  []string{"process crash: the kernel page cache survives (all completed writes visible), a write in flight is applied as a prefix", "a restart takes at least 1 ms of simulated time"},
